@@ -407,8 +407,43 @@ func vfRunAPIProgram(t *testing.T, spec *vfSpec, res *vfRes) {
 				res.violate("C18", "read/deadline/error", "ReadSCTP returned %v", got.err)
 			}
 			_ = rst.SetReadDeadline(time.Time{})
+			// one deadline, two reads: the first completes before the deadline, the second has to block and must
+			// still be woken at that same deadline
+			if delta >= 0 && got.err == nil {
+				dl := 300 * time.Millisecond
+				t1 := sim.net.now()
+				_ = rst.SetReadDeadline(time.Now().Add(dl))
+				_ = p.write(1+r.Intn(int(a.maxPayloadSize)-1), false, "ordinary")
+				n1, _, e1 := rst.ReadSCTP(buf)
+				if e1 == nil {
+					p.got = append(p.got, vfReadRec{N: n1, PPI: 53, Hash: vfMsgHash(53, buf[:n1]), T: sim.net.now()})
+				}
+				rc2 := make(chan rr, 1)
+				go func() {
+					n, _, err := rst.ReadSCTP(buf)
+					rc2 <- rr{n, err, sim.net.now()}
+				}()
+				var g2 rr
+				select {
+				case g2 = <-rc2:
+				case <-time.After(10 * time.Second):
+					res.violate("C18", "read/deadline/second-read-hangs", "a read deadline was set, one read returned a message before it, and the next (blocking) read was not woken at the deadline: still blocked 10 s later")
+					// unblock it so that the program can go on
+					_ = rst.SetReadDeadline(time.Now())
+					g2 = <-rc2
+					g2.err = nil
+					g2.n = -1
+				}
+				res.count("c18_read_deadlines", 1)
+				if g2.n >= 0 {
+					if !errors.Is(g2.err, os.ErrDeadlineExceeded) || g2.at != t1+dl {
+						res.violate("C18", "read/deadline/second-read", "second read under the same deadline returned (%d, %v) at %v, the deadline was at %v", g2.n, g2.err, g2.at, t1+dl)
+					}
+				}
+				_ = rst.SetReadDeadline(time.Time{})
+			}
 			ordinary(nAfter)
-			p.readAll(int(pos)+1+nAfter, 2*time.Minute)
+			p.readAll(len(p.sent), 2*time.Minute)
 			p.verify(kind)
 		}
 		sim.quiesce()
